@@ -4,9 +4,13 @@ import (
 	"bytes"
 	"reflect"
 
+	"github.com/blinklabs-io/gouroboros/cbor"
+	lcommon "github.com/blinklabs-io/gouroboros/ledger/common"
 	"github.com/blinklabs-io/gouroboros/protocol"
 	"github.com/blinklabs-io/gouroboros/protocol/chainsync"
 	pcommon "github.com/blinklabs-io/gouroboros/protocol/common"
+	"github.com/blinklabs-io/gouroboros/protocol/leiosfetch"
+	"github.com/blinklabs-io/gouroboros/protocol/leiosnotify"
 	"github.com/blinklabs-io/gouroboros/protocol/localtxmonitor"
 
 	"verifharness/vh"
@@ -116,15 +120,14 @@ var specials = map[string]*special{
 	"chainsync-ntn/MsgRollForwardNtN": {
 		approx: schema{K: "struct", Fields: []schema{sU8, {K: "struct", Fields: []schema{sU64, {K: "raw"}}}, sTip}},
 		gen: func(r *vh.Rng) (protocol.Message, error) {
-			era := uint(r.Intn(8))
-			return chainsync.NewMsgRollForwardNtN(era, uint(r.Intn(2)), randBlock(r), randTip(r))
+			// era 0 (Byron: type and size on the wire) in a third of the cases
+			era := uint(0)
+			if r.Intn(3) > 0 {
+				era = uint(1 + r.Intn(7))
+			}
+			return chainsync.NewMsgRollForwardNtN(era, uint(r.Intn(3)), randBlock(r), randTip(r))
 		},
-		same: func(a, b protocol.Message) bool {
-			x, y := a.(*chainsync.MsgRollForwardNtN), b.(*chainsync.MsgRollForwardNtN)
-			return x.WrappedHeader.Era == y.WrappedHeader.Era && bytes.Equal(x.WrappedHeader.HeaderCbor(), y.WrappedHeader.HeaderCbor()) &&
-				(x.WrappedHeader.Era != 0 || x.WrappedHeader.ByronType() == y.WrappedHeader.ByronType()) &&
-				reflect.DeepEqual(x.Tip, y.Tip)
-		},
+		// compared on the rendered fields (era, Byron type and size, header bytes, tip)
 		conforms: func(it *vh.Item) bool {
 			if !arrN(it, 3) || !isU8(it.Xs[0]) || !conforms(sTip, it.Xs[2]) {
 				return false
@@ -196,9 +199,154 @@ var specials = map[string]*special{
 				{"reply-next-tx-era-overflow", vh.A(vh.U(5), vh.A(vh.U(256), vh.TagOf(24, vh.B([]byte{0x80}))))},
 				{"reply-next-tx-type-overflow", vh.A(vh.U(256), tx)},
 				{"reply-next-tx-no-tx", vh.A(vh.U(5))},
+				// the tag-24 content is a cbor.WrappedCbor ([]byte) filled by the library's reflection
+				{"coerce:wrapped-cbor:null-content", vh.A(vh.U(6), vh.A(vh.U(6), vh.TagOf(24, vh.Null())))},
+				{"coerce:wrapped-cbor:undefined-content", vh.A(vh.U(6), vh.A(vh.U(6), vh.TagOf(24, &vh.Item{K: vh.KSimple, F: vh.Fimm, N: 23})))},
+				{"coerce:wrapped-cbor:int-array-content", vh.A(vh.U(6), vh.A(vh.U(6), vh.TagOf(24, vh.A(vh.U(1), vh.U(2), vh.U(255)))))},
+				{"coerce:wrapped-cbor:empty-array-content", vh.A(vh.U(6), vh.A(vh.U(6), vh.TagOf(24, vh.A())))},
+				{"coerce:wrapped-cbor:tagged-content", vh.A(vh.U(6), vh.A(vh.U(6), vh.TagOf(24, vh.TagOf(40, vh.B([]byte{0x80})))))},
+				{"reply-next-tx-text-content", vh.A(vh.U(6), vh.A(vh.U(6), vh.TagOf(24, vh.T("ab"))))},
+				{"reply-next-tx-int-array-overflow-content", vh.A(vh.U(6), vh.A(vh.U(6), vh.TagOf(24, vh.A(vh.U(256)))))},
+				{"reply-next-tx-tag24-inside-tag", vh.A(vh.U(6), vh.A(vh.U(6), vh.TagOf(40, vh.TagOf(24, vh.B([]byte{0x80})))))},
+				{"reply-next-tx-era-null", vh.A(vh.U(6), vh.A(vh.Null(), vh.TagOf(24, vh.B([]byte{0x80}))))},
+				{"reply-next-tx-era-simple", vh.A(vh.U(6), vh.A(&vh.Item{K: vh.KSimple, F: vh.Fimm, N: 6}, vh.TagOf(24, vh.B([]byte{0x80}))))},
+				{"reply-next-tx-era-bignum", vh.A(vh.U(6), vh.A(vh.TagOf(2, vh.B([]byte{6})), vh.TagOf(24, vh.B([]byte{0x80}))))},
+				{"reply-next-tx-era-tagged", vh.A(vh.U(6), vh.A(vh.TagOf(40, vh.U(6)), vh.TagOf(24, vh.B([]byte{0x80}))))},
+				{"reply-next-tx-type-tagged", vh.A(vh.TagOf(40, vh.U(6)))},
+				{"reply-next-tx-type-null", vh.A(vh.Null())},
+				{"reply-next-tx-wrapper-tagged", vh.A(vh.U(6), vh.TagOf(40, tx))},
+				{"reply-next-tx-wrapper-null", vh.A(vh.U(6), vh.Null())},
+				{"reply-next-tx-wrapper-map", vh.A(vh.U(6), vh.M())},
+				{"reply-next-tx-wide-heads-ok", &vh.Item{K: vh.KArr, F: vh.Findef, Xs: []*vh.Item{{K: vh.KUInt, F: vh.F2, N: 6}, {K: vh.KArr, F: vh.F1, Xs: []*vh.Item{{K: vh.KUInt, F: vh.F8, N: 6}, {K: vh.KTag, F: vh.F2, N: 24, Xs: []*vh.Item{vh.B([]byte{0x80})}}}}}}},
 			}
 		},
 	},
+}
+
+func init() {
+	rawList := func(r *vh.Rng) []cbor.RawMessage {
+		txs := make([]cbor.RawMessage, r.Intn(4))
+		for i := range txs {
+			txs[i] = randRaw(r)
+		}
+		return txs
+	}
+	specials["leiosfetch/MsgBlockTxs"] = &special{
+		gen: func(r *vh.Rng) (protocol.Message, error) {
+			if r.Bool() {
+				return leiosfetch.NewMsgBlockTxs(rawList(r)), nil
+			}
+			p := pcommon.NewPoint(1+boundary(r, 32), r.Bytes(32))
+			bm := map[uint16]uint64{}
+			for n := r.Intn(4); n > 0; n-- {
+				bm[uint16(boundary(r, 16))] = boundary(r, 64)
+			}
+			return leiosfetch.NewMsgBlockTxsFull(p, bm, rawList(r)), nil
+		},
+		extra: func(r *vh.Rng, base *vh.Item) []mutant {
+			tx := vh.A(vh.TagOf(24, vh.B([]byte{0x80})))
+			pt := vh.A(vh.U(7), vh.B(r.Bytes(32)))
+			return []mutant{
+				{"block-txs-1-element", vh.A(vh.U(3))},
+				{"block-txs-3-elements", vh.A(vh.U(3), pt, tx)},
+				{"block-txs-3-elements-bitmaps", vh.A(vh.U(3), vh.M(vh.U(0), vh.U(1)), tx)},
+				{"block-txs-5-elements", vh.A(vh.U(3), pt, vh.M(), tx, vh.U(0))},
+				{"block-txs-empty-array", vh.A()},
+				{"block-txs-short-form-ok", vh.A(vh.U(3), tx)},
+				{"block-txs-full-form-ok", vh.A(vh.U(3), pt, vh.M(vh.U(0), vh.U(1)), tx)},
+				{"block-txs-full-form-definite-empty-bitmaps-ok", vh.A(vh.U(3), vh.A(), vh.M(), vh.A())},
+				{"block-txs-short-form-point-list", vh.A(vh.U(3), pt)},
+				{"block-txs-full-form-swapped", vh.A(vh.U(3), vh.M(), pt, tx)},
+				{"block-txs-full-form-bitmaps-array", vh.A(vh.U(3), pt, vh.A(), tx)},
+				{"block-txs-full-form-bitmap-key-overflow", vh.A(vh.U(3), pt, vh.M(vh.U(65536), vh.U(1)), tx)},
+				{"block-txs-full-form-bitmap-duplicate-key", vh.A(vh.U(3), pt, vh.M(vh.U(1), vh.U(1), vh.U(1), vh.U(2)), tx)},
+				{"block-txs-full-form-point-3", vh.A(vh.U(3), vh.A(vh.U(5), vh.B([]byte{6}), vh.U(7)), vh.M(), tx)},
+				{"block-txs-type-overflow", vh.A(vh.U(256), tx)},
+				{"block-txs-txs-map", vh.A(vh.U(3), vh.M())},
+			}
+		},
+	}
+	sig := func(r *vh.Rng) []byte { return r.Bytes(lcommon.LeiosBlsSignatureSize) }
+	specials["leiosnotify/MsgVotesOffer"] = &special{
+		gen: func(r *vh.Rng) (protocol.Message, error) {
+			n := r.Intn(4)
+			switch r.Intn(3) {
+			case 0:
+				vs := make([]leiosnotify.MsgVotesOfferVote, n)
+				for i := range vs {
+					vs[i] = leiosnotify.MsgVotesOfferVote{SlotNo: boundary(r, 64), VoterId: boundary(r, 64)}
+				}
+				return leiosnotify.NewMsgVotesOffer(vs), nil
+			case 1:
+				vs := make([]lcommon.LeiosVote, 1+n)
+				for i := range vs {
+					vs[i] = lcommon.LeiosVote{SlotNo: boundary(r, 64), EndorserBlockHash: lcommon.NewBlake2b256(r.Bytes(32)), VoterId: boundary(r, 64), VoteSignature: sig(r)}
+				}
+				return leiosnotify.NewMsgVotesOfferFull(vs), nil
+			}
+			vs := make([]leiosnotify.PrototypeVote, 1+n)
+			for i := range vs {
+				vs[i] = leiosnotify.PrototypeVote{AnnouncingRbHash: lcommon.NewBlake2b256(r.Bytes(32)), VoterId: boundary(r, 64), VoteSignature: sig(r)}
+			}
+			return leiosnotify.NewMsgVotesOfferPrototype(vs), nil
+		},
+		extra: func(r *vh.Rng, base *vh.Item) []mutant {
+			id := func() *vh.Item { return vh.A(vh.U(uint64(r.Intn(100))), vh.U(uint64(r.Intn(100)))) }
+			full := func() *vh.Item {
+				return vh.A(vh.U(uint64(r.Intn(100))), vh.B(r.Bytes(32)), vh.U(uint64(r.Intn(100))), vh.B(sig(r)))
+			}
+			proto := func() *vh.Item { return vh.A(vh.B(r.Bytes(32)), vh.U(uint64(r.Intn(100))), vh.B(sig(r))) }
+			offer := func(vs ...*vh.Item) *vh.Item { return vh.A(vh.U(4), vh.A(vs...)) }
+			return []mutant{
+				{"votes-offer-mixed-ok", offer(full(), id(), proto(), id(), full())},
+				{"votes-offer-ids-ok", offer(id(), id())},
+				{"votes-offer-prototype-ok", offer(proto())},
+				{"votes-offer-vote-1-element", offer(vh.A(vh.U(1)))},
+				{"votes-offer-vote-5-elements", offer(vh.A(vh.U(1), vh.B(r.Bytes(32)), vh.U(2), vh.B(sig(r)), vh.U(0)))},
+				{"votes-offer-vote-empty", offer(vh.A())},
+				{"votes-offer-vote-not-array", offer(vh.U(1))},
+				{"votes-offer-vote-null", offer(vh.Null())},
+				{"votes-offer-vote-map", offer(vh.M())},
+				{"votes-offer-full-short-signature", offer(vh.A(vh.U(1), vh.B(r.Bytes(32)), vh.U(2), vh.B(r.Bytes(47))))},
+				{"votes-offer-full-text-hash", offer(vh.A(vh.U(1), vh.T("abcd"), vh.U(2), vh.B(sig(r))))},
+				{"votes-offer-full-swapped", offer(vh.A(vh.B(r.Bytes(32)), vh.U(1), vh.U(2), vh.B(sig(r))))},
+				{"votes-offer-prototype-short-hash", offer(vh.A(vh.B(r.Bytes(31)), vh.U(2), vh.B(sig(r))))},
+				{"votes-offer-prototype-long-hash", offer(vh.A(vh.B(r.Bytes(33)), vh.U(2), vh.B(sig(r))))},
+				{"votes-offer-prototype-long-signature", offer(vh.A(vh.B(r.Bytes(32)), vh.U(2), vh.B(r.Bytes(49))))},
+				{"votes-offer-prototype-text-voter", offer(vh.A(vh.B(r.Bytes(32)), vh.T("v"), vh.B(sig(r))))},
+				{"votes-offer-prototype-negative-voter", offer(vh.A(vh.B(r.Bytes(32)), vh.NI(0), vh.B(sig(r))))},
+				{"votes-offer-id-text-slot", offer(vh.A(vh.T("s"), vh.U(2)))},
+				{"votes-offer-id-bytes-voter", offer(vh.A(vh.U(2), vh.B([]byte{1})))},
+				{"votes-offer-3-elements", vh.A(vh.U(4), vh.A(id()), vh.U(0))},
+				{"votes-offer-1-element", vh.A(vh.U(4))},
+				{"votes-offer-votes-map", vh.A(vh.U(4), vh.M())},
+				{"coerce:struct-field:null-for-prototype-hash", offer(vh.A(vh.Null(), vh.U(2), vh.B(sig(r))))},
+				{"coerce:struct-field:int-array-as-prototype-signature", offer(vh.A(vh.B(r.Bytes(32)), vh.U(2), vh.A(intItems(48)...)))},
+			}
+		},
+	}
+	for k, sp := range specials {
+		if sp.approx.K == "" {
+			sp.approx = entrySchema(byKeyInit(k))
+		}
+	}
+}
+
+func intItems(n int) []*vh.Item {
+	xs := make([]*vh.Item, n)
+	for i := range xs {
+		xs[i] = vh.U(uint64(i))
+	}
+	return xs
+}
+
+func byKeyInit(k string) entry {
+	for _, e := range registry {
+		if e.key() == k {
+			return e
+		}
+	}
+	panic("no registry entry " + k)
 }
 
 var _ = pcommon.Point{}
